@@ -156,3 +156,22 @@ Proof.
   split; [rewrite Hic, Hin, Hb; reflexivity|]. split; [rewrite Hpc, Hpn, Hb; reflexivity|].
   exists pc, pn. repeat split; try assumption. congruence.
 Qed.
+
+(* OpenPosition on any path (existing position included): both deployments pay the fee pool the same toll *)
+From MP.Proofs Require Import FeeFlowFacts.
+Theorem twin_open_pool fc fn wc wn t v s m l lim fundsn wc' wn' vm :
+  twin wc wn ->
+  exec_op fc wc (OEngine t (EOpenPosition v s m l lim) 0) = Ok wc' ->
+  exec_op fn wn (OEngine t (EOpenPosition v s m l lim) fundsn) = Ok wn' ->
+  get_vamm wc v = Ok vm -> 0 <= m -> 0 <= l -> 0 < e_dec (ec (w_eng wc)) ->
+  let pool := e_feepool (ec (w_eng wc)) in
+  pool <> A_ENGINE -> pool <> A_IFUND -> pool <> if_engine (w_if wc) -> e_ifund (ec (w_eng wc)) <> pool -> t <> pool ->
+  bal (w_tok wc') pool = bal (w_tok wn') pool.
+Proof.
+  intros Htw Hc Hn Hv Hm Hl HD pool P1 P2 P3 P4 P5. subst pool. pose proof Htw as (_ & _ & He & _ & _ & Hif & Hb).
+  rewrite (open_position_tx_toll _ _ _ _ _ _ _ _ _ _ _ Hc Hv Hm Hl HD P1 P2 P3 P4 P5).
+  assert (Hv2 : get_vamm wn v = Ok vm) by (rewrite (twin_get_vamm _ _ _ Htw); exact Hv).
+  rewrite He, Hif in *.
+  rewrite (open_position_tx_toll _ _ _ _ _ _ _ _ _ _ _ Hn Hv2 Hm Hl HD P1 P2 P3 P4 P5).
+  rewrite Hb. reflexivity.
+Qed.
